@@ -457,17 +457,20 @@ Qed.
 Lemma calls_erase tr : calls (map erase tr) = calls tr.
 Proof.
   induction tr as [|e tr IH]; [reflexivity|]. cbn [map].
-  rewrite (calls_app [erase e] (map erase tr)), (calls_app [e] tr), IH. now destruct e.
+  change (erase e :: map erase tr) with ([erase e] ++ map erase tr). change (e :: tr) with ([e] ++ tr).
+  rewrite !calls_app, IH. now destruct e.
 Qed.
 Lemma puts_erase tr : puts (map erase tr) = puts tr.
 Proof.
   induction tr as [|e tr IH]; [reflexivity|]. cbn [map].
-  rewrite (puts_app [erase e] (map erase tr)), (puts_app [e] tr), IH. now destruct e.
+  change (erase e :: map erase tr) with ([erase e] ++ map erase tr). change (e :: tr) with ([e] ++ tr).
+  rewrite !puts_app, IH. now destruct e.
 Qed.
 Lemma taken_erase tr : taken (map erase tr) = taken tr.
 Proof.
   induction tr as [|e tr IH]; [reflexivity|]. cbn [map].
-  rewrite (taken_app [erase e] (map erase tr)), (taken_app [e] tr), IH. now destruct e.
+  change (erase e :: map erase tr) with ([erase e] ++ map erase tr). change (e :: tr) with ([e] ++ tr).
+  rewrite !taken_app, IH. now destruct e.
 Qed.
 
 Lemma filter_all {A} (l : list A) : filter (fun _ => true) l = l.
@@ -503,3 +506,195 @@ Proof.
   - pose proof (run_inv (fun _ => false) producers cycles sched) as [_ _ Hl _]. fold st0 in Hl.
     rewrite Hl. f_equal. apply filter_all.
 Qed.
+
+(* ------------------------------------------------------------------ C19_nonblocking *)
+Lemma step_disabled fails st t : enabled st t = false -> step fails st t = st.
+Proof.
+  unfold enabled, step, step_gen. destruct t as [|i|c].
+  - destruct (phase_ st); try discriminate.
+    + destruct (todo st); [reflexivity|discriminate].
+    + destruct (reader st); try reflexivity; discriminate.
+  - destruct (nth_error (prods st) i) as [[|m rest]|]; try reflexivity; discriminate.
+  - destruct (Nat.eqb c (cycle st)); [|reflexivity]. cbn [andb].
+    destruct (reader st); try reflexivity; try discriminate.
+    destruct (queue st) as [|[m|] q]; try reflexivity; discriminate.
+Qed.
+
+Lemma step_enabled fails st t : enabled st t = true -> exists e, trace (step fails st t) = trace st ++ [e].
+Proof.
+  unfold enabled, step, step_gen. destruct t as [|i|c].
+  - destruct (phase_ st); try (eexists; reflexivity).
+    + destruct (todo st); [discriminate|]. eexists; reflexivity.
+    + destruct (reader st); try discriminate. eexists; reflexivity.
+  - destruct (nth_error (prods st) i) as [[|m rest]|]; try discriminate. eexists; reflexivity.
+  - destruct (Nat.eqb c (cycle st)); [|discriminate]. cbn [andb].
+    destruct (reader st); try discriminate.
+    + destruct (queue st) as [|[m|] q]; try discriminate; eexists; reflexivity.
+    + eexists; reflexivity.
+Qed.
+
+(* A producer that has a message to offer is enabled in EVERY state — whatever the reader is doing, in
+   particular while it is inside the (slow) destination ([RHold]), and whether or not the service is
+   running — and its step only appends to the queue: it never touches the destination or its log. *)
+Theorem writer_nonblocking : forall fails st i m rest,
+  nth_error (prods st) i = Some (m :: rest) ->
+  enabled st (Prod i) = true /\
+  let st' := step fails st (Prod i) in
+  queue st' = queue st ++ [Msg m] /\ nth_error (prods st') i = Some rest /\
+  reader st' = reader st /\ log st' = log st /\ phase_ st' = phase_ st /\
+  trace st' = trace st ++ [EPut (Prod i) (Msg m)].
+Proof.
+  intros fails st i m rest H. unfold enabled, step, step_gen. rewrite H. cbn.
+  repeat split; auto. apply set_nth_error. apply nth_error_Some. congruence.
+Qed.
+
+(* ------------------------------------------------------------------ stopService completes *)
+Definition twice (c : nat) (_ : item) : list tid := [Reader c; Reader c].
+
+Lemma done_stable fails st c q :
+  reader st = RDone ->
+  reader (run_from fails st (flat_map (twice c) q)) = RDone /\
+  phase_ (run_from fails st (flat_map (twice c) q)) = phase_ st.
+Proof.
+  intros H. assert (E : step fails st (Reader c) = st).
+  { unfold step, step_gen. rewrite H. now destruct (Nat.eqb c (cycle st)). }
+  induction q as [|x q IH]; [cbn; auto|]. unfold run_from in *. cbn [flat_map twice app fold_left]. now rewrite !E.
+Qed.
+
+Lemma step_idle_msg fails m q rn rg ph cy td pr lg tr :
+  step fails (mkState (Msg m :: q) rn rg RIdle ph cy td pr lg tr) (Reader cy)
+  = mkState q rn rg (RHold m) ph cy td pr lg (tr ++ [EGet cy (Msg m)]).
+Proof. unfold step, step_gen. cbn. now rewrite Nat.eqb_refl. Qed.
+
+Lemma step_idle_stop fails q rn rg ph cy td pr lg tr :
+  step fails (mkState (Stop :: q) rn rg RIdle ph cy td pr lg tr) (Reader cy)
+  = mkState q rn rg RDone ph cy td pr lg (tr ++ [EGet cy Stop]).
+Proof. unfold step, step_gen. cbn. now rewrite Nat.eqb_refl. Qed.
+
+Lemma step_hold fails m q rn rg ph cy td pr lg tr :
+  step fails (mkState q rn rg (RHold m) ph cy td pr lg tr) (Reader cy)
+  = mkState q rn rg RIdle ph cy td pr (if fails m then lg else lg ++ [(m, Reader cy)])
+            (tr ++ [ECall cy m (negb (fails m))]).
+Proof. unfold step, step_gen. cbn. now rewrite Nat.eqb_refl. Qed.
+
+Lemma step_done fails q rn rg ph cy td pr lg tr c :
+  step fails (mkState q rn rg RDone ph cy td pr lg tr) (Reader c) = mkState q rn rg RDone ph cy td pr lg tr.
+Proof. unfold step, step_gen. cbn. now destruct (Nat.eqb c cy). Qed.
+
+Lemma drain fails q : forall st,
+  queue st = q -> In Stop q -> alive (reader st) = true ->
+  let st' := run_from fails st (flat_map (twice (cycle st)) q) in
+  reader st' = RDone /\ phase_ st' = phase_ st.
+Proof.
+  induction q as [|x q IH]; intros st Hq Hin Hal; [contradiction|].
+  destruct st as [q0 rn rg rd ph cy td pr lg tr]. cbn [queue reader cycle phase_] in *. subst q0.
+  cbn zeta. unfold run_from. cbn [flat_map twice app fold_left].
+  destruct rd as [| |m0|]; try discriminate.
+  - destruct x as [m|].
+    + rewrite step_idle_msg, step_hold.
+      destruct Hin as [Hin|Hin]; [discriminate|].
+      apply (IH (mkState q rn rg RIdle ph cy td pr _ _)); auto.
+    + rewrite step_idle_stop, step_done.
+      apply (done_stable fails (mkState q rn rg RDone ph cy td pr _ _) cy q). reflexivity.
+  - rewrite step_hold. destruct x as [m|].
+    + rewrite step_idle_msg.
+      destruct Hin as [Hin|Hin]; [discriminate|].
+      apply (IH (mkState q rn rg (RHold m) ph cy td pr _ _)); auto.
+    + rewrite step_idle_stop.
+      apply (done_stable fails (mkState q rn rg RDone ph cy td pr _ _) cy q). reflexivity.
+Qed.
+
+Lemma count_stop_in q : count_stop q <> 0 -> In Stop q.
+Proof. induction q as [|[m|] q IH]; cbn; intros H; [congruence | right; auto | now left]. Qed.
+
+(* Once _STOP has been put, letting the reader run (two steps per queued entry suffice) makes it return,
+   whatever the destination's failures, and then the join is enabled: stopService's result fires. *)
+Theorem writer_stop_completes : forall fails producers cycles sched,
+  let st := run fails producers cycles sched in
+  phase_ st = PJoining ->
+  let st' := run_from fails st (flat_map (twice (cycle st)) (queue st)) in
+  reader st' = RDone /\ enabled st' Ctl = true.
+Proof.
+  intros fails producers cycles sched st Hph st'.
+  pose proof (run_inv fails producers cycles sched) as [Hf _ _ Hp]. fold st in Hf, Hp.
+  unfold phase_ok in Hp. rewrite Hph in Hp. destruct Hp as (Hsp & _ & _ & Hd).
+  assert (H : reader st' = RDone /\ phase_ st' = phase_ st).
+  { destruct Hd as [[Hsk Hal]|[_ Hr]].
+    - apply drain; auto. apply count_stop_in.
+      apply (f_equal count_stop) in Hf. rewrite count_stop_app in Hf. lia.
+    - now apply done_stable. }
+  destruct H as [Hr Hp']. split; [exact Hr|]. unfold enabled. now rewrite Hp', Hph, Hr.
+Qed.
+
+(* ------------------------------------------------------------------ the mutant reader loop *)
+(* `while self.running:` instead of `while True:` — one producer, one cycle: the message is queued, the
+   service is marked stopped while the reader has not yet taken it; the reader leaves; _STOP is put and
+   the join completes with the message (put before _STOP) never passed to the destination. *)
+Definition mut_sched : list tid := [Ctl; Prod 0; Ctl; Reader 0; Ctl; Ctl].
+
+Theorem writer_exit_on_stopped_refuted :
+  exists producers cycles sched t1 t2 c p q m,
+    let st := run_mut (fun _ => false) producers cycles sched in
+    trace st = t1 ++ EJoin c :: t2 /\ t1 = p ++ EPut Ctl Stop :: q /\ In (EPut (Prod 0) (Msg m)) p /\
+    ~ In m (map fst (calls (trace st))) /\ log st = [] /\ finished st = true.
+Proof.
+  exists [[7]], 1, mut_sched,
+    [EStart 0; EPut (Prod 0) (Msg 7); EUnreg 0; EExit 0; EPut Ctl Stop], [], 0,
+    [EStart 0; EPut (Prod 0) (Msg 7); EUnreg 0; EExit 0], [], 7.
+  vm_compute. repeat split; auto.
+Qed.
+
+(* the same schedule on eliot's loop: the reader is not enabled to leave, the join is not enabled, nothing is lost *)
+Example genuine_on_mut_sched :
+  let st := run (fun _ => false) [[7]] 1 mut_sched in
+  phase_ st = PJoining /\ enabled st Ctl = false /\ queue st = [Stop] /\ reader st = RHold 7
+  /\ log (run (fun _ => false) [[7]] 1 (mut_sched ++ [Reader 0; Reader 0; Ctl])) = [(7, Reader 0)].
+Proof. vm_compute. repeat split. Qed.
+
+(* ------------------------------------------------------------------ examples (non-vacuity) *)
+(* two producers, two cycles, message 2 fails; producer 1 races with the first stop: its message 3 is put
+   after the first _STOP, stays queued while the service is down and is the first message of cycle 1 *)
+Definition ex_sched : list tid :=
+  [Ctl; Prod 0; Prod 0; Reader 0; Ctl; Ctl; Prod 1; Reader 0; Reader 0; Reader 0; Reader 0; Ctl;
+   Prod 1; Ctl; Reader 1; Reader 1; Ctl; Reader 1; Ctl; Reader 1; Reader 1; Reader 1; Ctl].
+
+Example ex_run :
+  let st := run (mask [2]) [[1; 2]; [3; 4]] 2 ex_sched in
+  log st = [(1, Reader 0); (3, Reader 1); (4, Reader 1)]
+  /\ calls (trace st) = [(1, 0); (2, 0); (3, 1); (4, 1)]
+  /\ puts (trace st) = [Msg 1; Msg 2; Stop; Msg 3; Msg 4; Stop]
+  /\ finished st = true /\ queue st = []
+  /\ trace st = [EStart 0; EPut (Prod 0) (Msg 1); EPut (Prod 0) (Msg 2); EGet 0 (Msg 1); EUnreg 0; EPut Ctl Stop;
+                 EPut (Prod 1) (Msg 3); ECall 0 1 true; EGet 0 (Msg 2); ECall 0 2 false; EGet 0 Stop; EJoin 0;
+                 EPut (Prod 1) (Msg 4); EStart 1; EGet 1 (Msg 3); ECall 1 3 true; EUnreg 1; EGet 1 (Msg 4);
+                 EPut Ctl Stop; ECall 1 4 true; EGet 1 Stop; EJoin 1].
+Proof. vm_compute. repeat split. Qed.
+
+(* the hypothesis of writer_stop_waits is satisfiable, with messages before the sentinel *)
+Example ex_stop_waits :
+  exists t1 t2 p q, trace (run (mask [2]) [[1; 2]; [3; 4]] 2 ex_sched) = t1 ++ EJoin 0 :: t2 /\
+                    t1 = p ++ EPut Ctl Stop :: q /\ In (EPut (Prod 0) (Msg 2)) p.
+Proof.
+  exists [EStart 0; EPut (Prod 0) (Msg 1); EPut (Prod 0) (Msg 2); EGet 0 (Msg 1); EUnreg 0; EPut Ctl Stop;
+          EPut (Prod 1) (Msg 3); ECall 0 1 true; EGet 0 (Msg 2); ECall 0 2 false; EGet 0 Stop].
+  eexists. exists [EStart 0; EPut (Prod 0) (Msg 1); EPut (Prod 0) (Msg 2); EGet 0 (Msg 1); EUnreg 0].
+  eexists. vm_compute. repeat split. auto.
+Qed.
+
+(* a message put after the last _STOP stays queued for ever (no later cycle) *)
+Example ex_leftover :
+  let st := run (fun _ => false) [[1]] 1 [Ctl; Ctl; Ctl; Prod 0; Reader 0; Ctl] in
+  finished st = true /\ queue st = [Msg 1] /\ log st = [].
+Proof. vm_compute. repeat split. Qed.
+
+(* a producer step is enabled while the reader is inside the destination *)
+Example ex_nonblocking :
+  let st := run (fun _ => false) [[1; 2]] 1 [Ctl; Prod 0; Reader 0] in
+  reader st = RHold 1 /\ enabled st (Prod 0) = true /\ queue (step (fun _ => false) st (Prod 0)) = [Msg 2].
+Proof. vm_compute. repeat split. Qed.
+
+(* writer_stop_completes has a reachable PJoining state with a non-empty queue *)
+Example ex_joining :
+  let st := run (mask [1]) [[1; 2]] 1 [Ctl; Prod 0; Prod 0; Ctl; Ctl] in
+  phase_ st = PJoining /\ queue st = [Msg 1; Msg 2; Stop] /\ enabled st Ctl = false.
+Proof. vm_compute. repeat split. Qed.
